@@ -237,6 +237,25 @@ func c13Random(c *Ctx) {
 			}
 			s := randSeq(r, []byte(dna8), l)
 			k.Input("seq", s)
+			// several strings packed from adjacent windows of one buffer, dst right behind src
+			{
+				s2 := randSeq(r, []byte(dna8), 1+r.IntN(9))
+				ar := newArena(r, s, s2, []byte("\x1b\xe4"))
+				dstWin := ar.parts[2][:len(ar.parts[2]):len(ar.parts[2])]
+				g1 := sequtil.DNATo2Bit(nil, ar.parts[0])
+				g2 := sequtil.DNATo2Bit(nil, ar.parts[1])
+				g3 := sequtil.DNATo2Bit(dstWin, ar.parts[0])
+				if !bytes.Equal(g1, refPack(s)) || !bytes.Equal(g2, refPack(s2)) || !bytes.Equal(g3, append([]byte("\x1b\xe4"), refPack(s)...)) {
+					k.Failf("pack", "DNATo2Bit on strings carved from one buffer gives %x / %x / %x, want %x / %x / 1be4+%x", g1, g2, g3, refPack(s), refPack(s2), refPack(s))
+					return
+				}
+				u := sequtil.DNAFrom2Bit(nil, refPack(s))
+				_ = u
+				if arenaFail(k, ar, "DNATo2Bit") {
+					return
+				}
+				k.Count("arena_cases", 1)
+			}
 			heldPacked := sequtil.DNATo2Bit(nil, s)
 			heldUnpacked := sequtil.DNAFrom2Bit(nil, heldPacked)
 			checkPack(k, s, true)
@@ -532,6 +551,19 @@ func c14Frames(c *Ctx) {
 			r := k.Rand()
 			s := randSeq(r, []byte(dna8), r.IntN(5001))
 			k.Input("seq", s)
+			{
+				ar := newArena(r, s, randSeq(r, []byte(dna8), 6))
+				fr := sequtil.TranslateReadingFrames(ar.parts[0])
+				tr := sequtil.Translate(nil, ar.parts[0][:len(s)/3*3])
+				if !bytes.Equal(fr[0], refTranslate(s[:len(s)/3*3])) || !bytes.Equal(tr, fr[0]) {
+					k.Failf("translate", "Translate on a window of a larger buffer differs from the reference")
+					return
+				}
+				if arenaFail(k, ar, "Translate/TranslateReadingFrames") {
+					return
+				}
+				k.Count("arena_cases", 1)
+			}
 			heldFrames := sequtil.TranslateReadingFrames(s)
 			heldTr := sequtil.Translate(nil, s[:len(s)/3*3])
 			checkFrames(k, s)
